@@ -246,6 +246,49 @@ pub fn run(tier: &str) -> i32 {
         });
         acc.choice_points += pts;
 
+        // (a2) v1.public under verifying keys of other RSA sizes (1024 ... 8192 bits; the DER is built here, the
+        //      modulus need not belong to anybody: the token texts are junk anyway): every decoded length up to
+        //      the largest signature size + 70
+        if *p == Proto::V1P {
+            for mod_len in [128usize, 256, 257, 384, 512, 1024] {
+                let mut modulus = vec![0xa5u8; mod_len];
+                modulus[0] = 0x80 | 0x25;
+                modulus[mod_len - 1] |= 1;
+                let tlv = |tag: u8, body: &[u8]| -> Vec<u8> {
+                    let mut v = vec![tag];
+                    if body.len() < 128 {
+                        v.push(body.len() as u8);
+                    } else if body.len() < 256 {
+                        v.extend_from_slice(&[0x81, body.len() as u8]);
+                    } else {
+                        v.extend_from_slice(&[0x82, (body.len() >> 8) as u8, body.len() as u8]);
+                    }
+                    v.extend_from_slice(body);
+                    v
+                };
+                let mut n_body = vec![0u8];
+                n_body.extend_from_slice(&modulus);
+                let der = tlv(0x30, &[tlv(0x02, &n_body), tlv(0x02, &[1, 0, 1])].concat());
+                let top = if quick { mod_len + 70 } else { 1_100 };
+                let step = if quick && *l != Layer::Core { 7 } else { 1 };
+                let mut len = 0;
+                while len <= top {
+                    for fill in [0u8, 0xff] {
+                        for seg in [None, Some("Zg")] {
+                            let mut token = format!("{}{}", p.header(), b64::encode(&vec![fill; len]));
+                            if let Some(sg) = seg {
+                                token.push('.');
+                                token.push_str(sg);
+                            }
+                            present_one(&mut acc, "a2-rsa-key-sizes", *p, *l, &der, &token, &seg.map(|_| "f".to_string()), &None);
+                            acc.choice_points += 1;
+                        }
+                    }
+                    len += step;
+                }
+            }
+        }
+
         // (b) every character prefix of an authentic token
         let short = IssueCase::new(*p, Layer::Core, key, seed.as_deref(), "{\"data\":\"\u{00e9}x\"}", &Some("f".into()), &None);
         if let Some(t) = short.issue().ok() {
